@@ -115,7 +115,7 @@ theorem stagesRel_congr {bl bl' : Bytes → Option Bytes} (h : ∀ k, bl k = bl'
 structure Inv (s : PState) (sp : Spec) : Prop where
   view : ∀ k, view s k = sp.cur.get k
   absorbed : s.errCh = some .ok → ∀ f, s.flushing = some f → ∀ k v, f.get k = some v → s.store.get k = some v
-  cache : ∀ c, s.cache = some c → ∀ k e, c.get k = some e → ∀ m, m ∈ s.mbuf :: s.stages → (m.get k).isSome ∨ e = below s k
+  cache : ∀ c, s.cache = some c → ∀ k e, c.get k = some e → (s.mbuf.get k).isSome ∨ e = below s k
   stages : stagesRel (below s) s.stages sp.curSaved
   coh : s.flushing.isSome → s.running = true ∨ s.errCh.isSome
 
@@ -173,9 +173,9 @@ theorem inv_complete {s : PState} {sp : Spec} (c : Completion) (h : Inv s sp) : 
     have : c.res = .ok := by injection he
     rw [h3 this, Buf.get_apply, hk]; rfl
   cache := by
-    intro cc hc k e hk m hm
-    rw [complete_cache] at hc; rw [complete_mbuf, complete_stages] at hm
-    rw [below_complete]; exact h.cache cc hc k e hk m hm
+    intro cc hc k e hk
+    rw [complete_cache] at hc
+    rw [complete_mbuf, below_complete]; exact h.cache cc hc k e hk
   stages := by
     rw [complete_stages]
     exact stagesRel_congr (fun k => (below_complete s c k).symm) h.stages
@@ -326,7 +326,7 @@ theorem inv_waitAfter {s : PState} {sp : Spec} (h : Inv s sp) (hres : s.errCh.is
     refine ⟨?_, ?_, ?_, ?_, ?_⟩
     · intro k; unfold view; rw [hbelow]; exact h.view k
     · intro he2; cases he2
-    · intro c hc k e hk m hm; rw [hbelow]; exact h.cache c hc k e hk m hm
+    · intro c hc k e hk; rw [hbelow]; exact h.cache c hc k e hk
     · exact stagesRel_congr (fun k => (hbelow k).symm) h.stages
     · intro hf2; simp at hf2
 
@@ -465,13 +465,12 @@ theorem batchGet_fields (s : PState) (ks : List Bytes) :
     (batchGet s ks).1 = { s with cache := (batchGet s ks).1.cache } := by
   unfold batchGet; rfl
 
-theorem inv_batchGet {s : PState} {sp : Spec} (ks : List Bytes) (h : Inv s sp) (hst : s.stages = []) :
-    Inv (batchGet s ks).1 sp := by
+theorem inv_batchGet {s : PState} {sp : Spec} (ks : List Bytes) (h : Inv s sp) : Inv (batchGet s ks).1 sp := by
   have hc0 : cacheOK s (s.cache.getD []) := by
     intro k e hk
     cases hc : s.cache with
     | none => simp [hc, Cache.get] at hk
-    | some c => simp [hc] at hk; exact h.cache c hc k e hk s.mbuf (by simp)
+    | some c => simp [hc] at hk; exact h.cache c hc k e hk
   have h1 := bgLocal_ok s ks [] (s.cache.getD []) [] hc0 (by simp)
   have h2 := bgRemote_ok s (bgLocal s ks [] (s.cache.getD []) []).2.2 (bgLocal s ks [] (s.cache.getD []) []).1
     (bgLocal s ks [] (s.cache.getD []) []).2.1 h1.1 h1.2
@@ -480,12 +479,10 @@ theorem inv_batchGet {s : PState} {sp : Spec} (ks : List Bytes) (h : Inv s sp) (
     unfold batchGet; rfl
   rw [batchGet_fields]
   refine ⟨h.view, h.absorbed, ?_, h.stages, h.coh⟩
-  intro c hc k e hk m hm
+  intro c hc k e hk
   simp only at hc
   rw [hcache] at hc
   injection hc with hc; subst hc
-  simp only [hst, List.mem_singleton] at hm
-  subst hm
   exact h2 k e hk
 
 /-! ## every step keeps the invariant -/
@@ -511,22 +508,19 @@ theorem inv_write {s : PState} {sp : Spec} (k v : Bytes) (h : Inv s sp) :
     · simp only [h2, if_false]; exact this
   absorbed := h.absorbed
   cache := by
-    intro c hc k' e hk m hm
+    intro c hc k' e hk
     have hb : below { s with mbuf := s.mbuf.put k v } k' = below s k' := rfl
     rw [hb]
-    simp only [List.mem_cons] at hm
-    rcases hm with hm | hm
-    · rcases h.cache c hc k' e hk s.mbuf (by simp) with h1 | h1
-      · left; subst hm; rw [Buf.get_put]
-        by_cases h2 : k = k'
-        · simp [h2]
-        · simp only [h2, if_false]; exact h1
-      · right; exact h1
-    · exact h.cache c hc k' e hk m (by simp [hm])
+    rcases h.cache c hc k' e hk with h1 | h1
+    · left; simp only; rw [Buf.get_put]
+      by_cases h2 : k = k'
+      · simp [h2]
+      · simp only [h2, if_false]; exact h1
+    · right; exact h1
   stages := h.stages
   coh := h.coh
 
-theorem inv_step {s : PState} {sp : Spec} (op : Op) (h : Inv s sp) (hok : okOp s op = true)
+theorem inv_step {s : PState} {sp : Spec} (op : Op) (h : Inv s sp)
     (hnf : (step s op).1.failed = false) : Inv (step s op).1 (specStep sp op (step s op).2) := by
   cases op with
   | set k v =>
@@ -536,9 +530,7 @@ theorem inv_step {s : PState} {sp : Spec} (op : Op) (h : Inv s sp) (hok : okOp s
     · simp only [hv]; exact inv_write k v h
   | del k => exact inv_write k [] h
   | get k => exact h
-  | batchGet ks =>
-    have hst : s.stages = [] := by simpa [okOp] using hok
-    exact inv_batchGet ks h hst
+  | batchGet ks => exact inv_batchGet ks h
   | flush force mem late => exact inv_doFlush force mem late h hnf
   | flushDone c =>
     unfold step specStep
@@ -548,40 +540,24 @@ theorem inv_step {s : PState} {sp : Spec} (op : Op) (h : Inv s sp) (hok : okOp s
   | flushWait late => exact inv_doFlushWait late h hnf
   | stage =>
     unfold step specStep
-    refine ⟨h.view, h.absorbed, ?_, ⟨h.view, h.stages⟩, h.coh⟩
-    intro c hc k e hk m hm
-    simp only [List.mem_cons] at hm
-    rcases hm with hm | hm | hm
-    · exact h.cache c hc k e hk m (by simp [hm])
-    · exact h.cache c hc k e hk m (by simp [hm])
-    · exact h.cache c hc k e hk m (by simp [hm])
+    exact ⟨h.view, h.absorbed, h.cache, ⟨h.view, h.stages⟩, h.coh⟩
   | release =>
     unfold step specStep
-    refine ⟨h.view, h.absorbed, ?_, stagesRel_tail h.stages, h.coh⟩
-    intro c hc k e hk m hm
-    simp only [List.mem_cons] at hm
-    rcases hm with hm | hm
-    · exact h.cache c hc k e hk m (by simp [hm])
-    · exact h.cache c hc k e hk m (List.mem_cons_of_mem _ (List.mem_of_mem_tail hm))
+    exact ⟨h.view, h.absorbed, h.cache, stagesRel_tail h.stages, h.coh⟩
   | cleanup =>
     unfold step specStep
     cases hs : s.stages with
     | nil =>
       have hcs : sp.curSaved = [] := by have := h.stages; rw [hs] at this; exact stagesRel_nil_left this
       simp only [hcs, List.headD_nil, List.tail_nil]
-      exact ⟨h.view, h.absorbed, h.cache, by rw [hs]; trivial, h.coh⟩
+      exact ⟨h.view, h.absorbed, (by intro c hc; cases hc), (by simp [stagesRel]), h.coh⟩
     | cons m rest =>
       cases hcs : sp.curSaved with
       | nil => have := h.stages; rw [hs, hcs] at this; exact this.elim
       | cons c cs =>
         have hrel := h.stages; rw [hs, hcs] at hrel
         simp only [List.headD_cons, List.tail_cons]
-        refine ⟨hrel.1, h.absorbed, ?_, hrel.2, h.coh⟩
-        intro cc hc k e hk m' hm'
-        simp only [List.mem_cons] at hm'
-        rcases hm' with hm' | hm'
-        · exact h.cache cc hc k e hk m' (by rw [hs]; simp [hm'])
-        · exact h.cache cc hc k e hk m' (by rw [hs]; simp [hm'])
+        exact ⟨hrel.1, h.absorbed, (by intro c hc; cases hc), hrel.2, h.coh⟩
 
 theorem readValue_eq_view {s : PState} {sp : Spec} (h : Inv s sp) (k : Bytes) : readValue s k = view s k := by
   unfold readValue view
@@ -605,7 +581,7 @@ theorem readValue_eq_view {s : PState} {sp : Spec} (h : Inv s sp) (k : Bytes) : 
       | none => simp [hb]
       | some e =>
         simp only
-        rcases h.cache c hc k e hck s.mbuf (by simp) with h1 | h1
+        rcases h.cache c hc k e hck with h1 | h1
         · simp [hm] at h1
         · exact h1
 
@@ -648,7 +624,7 @@ theorem failed_run_mono (s : PState) (ops : List Op) (h : s.failed = true) : (ru
   | nil => exact h
   | cons op ops ih => unfold run; exact ih _ (failed_mono s op h)
 
-theorem inv_run {s : PState} {sp : Spec} (ops : List Op) (h : Inv s sp) (hok : RunOk s ops)
+theorem inv_run {s : PState} {sp : Spec} (ops : List Op) (h : Inv s sp)
     (hnf : (run s ops).failed = false) : Inv (runBoth (s, sp) ops).1 (runBoth (s, sp) ops).2 := by
   induction ops generalizing s sp with
   | nil => exact h
@@ -659,7 +635,7 @@ theorem inv_run {s : PState} {sp : Spec} (ops : List Op) (h : Inv s sp) (hok : R
       cases hf : (step s op).1.failed with
       | false => rfl
       | true => rw [failed_run_mono _ ops hf] at hnf; cases hnf
-    exact ih (inv_step op h hok.1 hnf1) hok.2 hnf
+    exact ih (inv_step op h hnf1) hnf
 
 theorem inv_init (cfg : Cfg) : Inv (init cfg) {} where
   view k := rfl
@@ -901,7 +877,7 @@ theorem inv2_step {s : PState} {sp : Spec} (op : Op) (h : Inv2 s sp) :
     | nil =>
       have hps : sp.pendSaved = [] := by have := h.stagesEq; rw [hs] at this; exact allRel_nil_left this
       simp only [hps, List.headD_nil, List.tail_nil]
-      exact ⟨h.mbufEq, by rw [hs]; trivial, h.histEq, h.gens, h.active, h.runFl, h.errFl⟩
+      exact ⟨h.mbufEq, (by simp [allRel]), h.histEq, h.gens, h.active, h.runFl, h.errFl⟩
     | cons m rest =>
       cases hps : sp.pendSaved with
       | nil => have := h.stagesEq; rw [hs, hps] at this; exact this.elim
@@ -1269,15 +1245,65 @@ theorem le_antisymm' {a b : Bytes} (h1 : Bytes.le a b = true) (h2 : Bytes.le b a
   · have := lt_le_trans h h2; rw [lt_irrefl'] at this; cases this
   · exact h
 
-/-- the bounds describe the key set `K` seen so far -/
+theorem cmp_nextKey : ∀ g : Bytes, Bytes.cmp g (nextKey g) = .lt
+  | [] => rfl
+  | a :: as => by
+    show Bytes.cmp (a :: as) (a :: (as ++ [0])) = .lt
+    rw [cmp_cons]; simp only [UInt8.lt_irrefl, if_false]; exact cmp_nextKey as
+
+theorem lt_nextKey (g : Bytes) : Bytes.lt g (nextKey g) = true := by unfold Bytes.lt; rw [cmp_nextKey]; rfl
+
+theorem uint8_not_lt_zero (a : UInt8) : ¬ a < 0 := by
+  intro h
+  have := UInt8.lt_iff_toNat_lt.mp h
+  simp at this
+
+/-- nothing lies strictly between `g` and `NextKey(g)` -/
+theorem cmp_lt_nextKey : ∀ (g x : Bytes), Bytes.cmp x (nextKey g) = .lt → Bytes.cmp x g ≠ .gt
+  | [], [], _ => by simp [Bytes.cmp]
+  | [], a :: xs, h => by
+    exfalso
+    have h' : Bytes.cmp (a :: xs) [0] = .lt := h
+    rw [cmp_cons] at h'
+    by_cases h1 : a < 0
+    · exact uint8_not_lt_zero a h1
+    · by_cases h2 : (0 : UInt8) < a
+      · simp [h1, h2] at h'
+      · simp only [h1, h2, if_false] at h'
+        cases xs <;> simp [Bytes.cmp] at h'
+  | _ :: _, [], _ => by simp [Bytes.cmp]
+  | b :: gs, a :: xs, h => by
+    have h' : Bytes.cmp (a :: xs) (b :: (gs ++ [0])) = .lt := h
+    rw [cmp_cons] at h' ⊢
+    by_cases h1 : a < b
+    · simp [h1]
+    · by_cases h2 : b < a
+      · simp [h1, h2] at h'
+      · simp only [h1, h2, if_false] at h' ⊢
+        exact cmp_lt_nextKey gs xs h'
+
+theorem le_of_lt_nextKey {g x : Bytes} (h : Bytes.lt x (nextKey g) = true) : Bytes.le x g = true := by
+  unfold Bytes.lt at h; unfold Bytes.le
+  have h' : Bytes.cmp x (nextKey g) = .lt := by cases hc : Bytes.cmp x (nextKey g) <;> simp [hc] at h ⊢
+  have := cmp_lt_nextKey g x h'
+  cases hc : Bytes.cmp x g <;> simp [hc] at this ⊢
+
+theorem lt_of_not_le {a b : Bytes} (h : Bytes.le a b = false) : Bytes.lt b a = true := by
+  cases h2 : Bytes.lt b a with
+  | true => rfl
+  | false => rw [le_of_not_lt h2] at h; cases h
+
+/-- the bounds describe the key set `K` seen so far: start = least key, end = NextKey(greatest key) -/
 def boundsInv (K : List Bytes) (p : Bytes × Bytes) : Prop :=
   (K = [] ∧ p = ([], [])) ∨
-  (p.1 ∈ K ∧ p.2 ∈ K ∧ ∀ k ∈ K, Bytes.le p.1 k = true ∧ Bytes.le k p.2 = true)
+  (p.1 ∈ K ∧ ∃ g ∈ K, p.2 = nextKey g ∧ ∀ k ∈ K, Bytes.le p.1 k = true ∧ Bytes.le k g = true)
 
 theorem headD_mem {b : List Bytes} (h : b ≠ []) : b.headD [] ∈ b := by
   cases b with
   | nil => exact absurd rfl h
   | cons x xs => simp
+
+theorem nextKey_isEmpty (g : Bytes) : (nextKey g).isEmpty = false := by cases g <;> rfl
 
 theorem updBounds_inv {K : List Bytes} {p : Bytes × Bytes} (hK : ∀ k ∈ K, k ≠ []) (h : boundsInv K p)
     {b : List Bytes} (hb : b ≠ []) : boundsInv (K ++ b) (updBounds p b) := by
@@ -1294,46 +1320,53 @@ theorem updBounds_inv {K : List Bytes} {p : Bytes × Bytes} (hK : ∀ k ∈ K, k
   right
   unfold updBounds
   simp only
-  rcases h with ⟨hK0, hp⟩ | ⟨h1, h2, h3⟩
+  rcases h with ⟨hK0, hp⟩ | ⟨h1, g, hg, hpe, h3⟩
   · subst hK0; rw [hp]
     simp only [List.isEmpty_nil, Bool.true_or, if_true, List.nil_append]
-    exact ⟨hlo, hhi, fun k hk => ⟨lo2 k hk, hi2 k hk⟩⟩
+    exact ⟨hlo, _, hhi, rfl, fun k hk => ⟨lo2 k hk, hi2 k hk⟩⟩
   · have e1 : p.1.isEmpty = false := by
       cases hp1 : p.1 with
       | nil => exact absurd hp1 (hK _ h1)
       | cons _ _ => rfl
-    have e2 : p.2.isEmpty = false := by
-      cases hp2 : p.2 with
-      | nil => exact absurd hp2 (hK _ h2)
-      | cons _ _ => rfl
+    have e2 : p.2.isEmpty = false := by rw [hpe]; exact nextKey_isEmpty g
     simp only [e1, e2, Bool.false_or]
-    refine ⟨?_, ?_, ?_⟩
-    · by_cases hl : Bytes.lt (minKey b (b.headD [])) p.1 = true
+    have hstart : ∀ k ∈ K ++ b,
+        Bytes.le (if Bytes.lt (minKey b (b.headD [])) p.1 = true then minKey b (b.headD []) else p.1) k = true := by
+      intro k hk
+      by_cases hl : Bytes.lt (minKey b (b.headD [])) p.1 = true
+      · simp only [hl, if_true]
+        rcases List.mem_append.mp hk with hk | hk
+        · exact le_trans' (le_iff.mpr (Or.inl hl)) (h3 k hk).1
+        · exact lo2 k hk
+      · simp only [hl]
+        rcases List.mem_append.mp hk with hk | hk
+        · exact (h3 k hk).1
+        · exact le_trans' (le_of_not_lt (by simpa using hl)) (lo2 k hk)
+    have hsm : (if Bytes.lt (minKey b (b.headD [])) p.1 = true then minKey b (b.headD []) else p.1) ∈ K ++ b := by
+      by_cases hl : Bytes.lt (minKey b (b.headD [])) p.1 = true
       · simp only [hl, if_true]; exact List.mem_append_right _ hlo
       · simp only [hl]; exact List.mem_append_left _ h1
-    · by_cases hl : Bytes.lt p.2 (maxKey b (b.headD [])) = true
-      · simp only [hl, if_true]; exact List.mem_append_right _ hhi
-      · simp only [hl]; exact List.mem_append_left _ h2
-    · intro k hk
-      constructor
-      · by_cases hl : Bytes.lt (minKey b (b.headD [])) p.1 = true
-        · simp only [hl, if_true]
-          rcases List.mem_append.mp hk with hk | hk
-          · exact le_trans' (le_iff.mpr (Or.inl hl)) (h3 k hk).1
-          · exact lo2 k hk
-        · simp only [hl]
-          rcases List.mem_append.mp hk with hk | hk
-          · exact (h3 k hk).1
-          · exact le_trans' (le_of_not_lt (by simpa using hl)) (lo2 k hk)
-      · by_cases hl : Bytes.lt p.2 (maxKey b (b.headD [])) = true
-        · simp only [hl, if_true]
-          rcases List.mem_append.mp hk with hk | hk
-          · exact le_trans' (h3 k hk).2 (le_iff.mpr (Or.inl hl))
-          · exact hi2 k hk
-        · simp only [hl]
-          rcases List.mem_append.mp hk with hk | hk
-          · exact (h3 k hk).2
-          · exact le_trans' (hi2 k hk) (le_of_not_lt (by simpa using hl))
+    refine ⟨hsm, ?_⟩
+    by_cases hl : Bytes.le p.2 (maxKey b (b.headD [])) = true
+    · simp only [hl, if_true]
+      refine ⟨_, List.mem_append_right _ hhi, rfl, ?_⟩
+      intro k hk
+      refine ⟨hstart k hk, ?_⟩
+      rcases List.mem_append.mp hk with hk | hk
+      · -- k ≤ g < NextKey g = p.2 ≤ hi
+        have : Bytes.lt k p.2 = true := by rw [hpe]; exact le_lt_trans (h3 k hk).2 (lt_nextKey g)
+        exact le_iff.mpr (Or.inl (lt_le_trans this hl))
+      · exact hi2 k hk
+    · simp only [hl]
+      have hl' : Bytes.le p.2 (maxKey b (b.headD [])) = false := by simpa using hl
+      have hlt : Bytes.lt (maxKey b (b.headD [])) (nextKey g) = true := by rw [← hpe]; exact lt_of_not_le hl'
+      have hle : Bytes.le (maxKey b (b.headD [])) g = true := le_of_lt_nextKey hlt
+      refine ⟨g, List.mem_append_left _ hg, hpe, ?_⟩
+      intro k hk
+      refine ⟨hstart k hk, ?_⟩
+      rcases List.mem_append.mp hk with hk | hk
+      · exact (h3 k hk).2
+      · exact le_trans' (hi2 k hk) hle
 
 theorem foldl_updBounds_inv : ∀ (bs : List (List Bytes)) (K : List Bytes) (p : Bytes × Bytes),
     (∀ k ∈ K, k ≠ []) → boundsInv K p → validBatches bs → boundsInv (K ++ bs.flatten) (bs.foldl updBounds p)
@@ -1349,10 +1382,10 @@ theorem foldl_updBounds_inv : ∀ (bs : List (List Bytes)) (K : List Bytes) (p :
     have := foldl_updBounds_inv bs (K ++ b) (updBounds p b) hK' h1 (fun b' hb' => hv b' (List.mem_cons_of_mem _ hb'))
     simpa [List.flatten_cons, List.append_assoc] using this
 
-/-- what the flush callback leaves in pipelinedStart / pipelinedEnd: the least and the greatest flushed key -/
+/-- what the flush callback leaves in pipelinedStart / pipelinedEnd: the least flushed key and NextKey(greatest flushed key) -/
 theorem boundsOf_spec {bs : List (List Bytes)} (hv : validBatches bs) (hne : bs ≠ []) :
-    (boundsOf bs).1 ∈ bs.flatten ∧ (boundsOf bs).2 ∈ bs.flatten ∧
-    ∀ k ∈ bs.flatten, Bytes.le (boundsOf bs).1 k = true ∧ Bytes.le k (boundsOf bs).2 = true := by
+    (boundsOf bs).1 ∈ bs.flatten ∧ ∃ g ∈ bs.flatten, (boundsOf bs).2 = nextKey g ∧
+    ∀ k ∈ bs.flatten, Bytes.le (boundsOf bs).1 k = true ∧ Bytes.le k g = true := by
   have := foldl_updBounds_inv bs [] ([], []) (by simp) (Or.inl ⟨rfl, rfl⟩) hv
   simp only [List.nil_append] at this
   rcases this with ⟨h0, _⟩ | h
@@ -1408,14 +1441,6 @@ theorem tasks_cover : ∀ (splits : List Bytes) (lo key end_ k : Bytes),
         · exact Or.inl h4
         · exact Or.inr (fun hm => h4 (List.mem_cons_of_mem _ hm))
       exact tasks_cover rest hi key end_ k (le_of_not_lt hk') h2 h3 h4'
-
-def decRunOk : (s : PState) → (ops : List Op) → Decidable (RunOk s ops)
-  | _, [] => isTrue trivial
-  | s, op :: ops =>
-    have := decRunOk (step s op).1 ops
-    inferInstanceAs (Decidable (okOp s op = true ∧ RunOk (step s op).1 ops))
-
-instance (s : PState) (ops : List Op) : Decidable (RunOk s ops) := decRunOk s ops
 
 theorem down_pairwise : ∀ n, (down n).Pairwise (· > ·) ∧ ∀ g ∈ down n, 1 ≤ g ∧ g ≤ n
   | 0 => ⟨List.Pairwise.nil, by simp [down]⟩
